@@ -24,7 +24,8 @@ PURE_METHODS = {'get', 'keys', 'items', 'values', 'getfieldval', 'tell', 'format
                 'guess_payload_class', 'getpeername', 'fileno', 'now', 'ip_address', 'hexlify', 'getLogger',
                 'get_extension_for_oid', 'get_values_for_type', 'getpeercert', 'load_der_x509_certificate',
                 'default_backend', 'match_hostname', 'cipher', 'timedelta', 'dumps', 'loads', 'build', 'show',
-                'format_exc', 'log_name', 'compile', 'escape'}
+                'format_exc', 'log_name', 'compile', 'escape', 'singleton', 'closed', 'closedopen', 'empty', 'iterate',
+                'to_bytes', 'peek'}
 PURE_FUNCS = {'len', 'min', 'max', 'int', 'str', 'bool', 'bytes', 'bytearray', 'tuple', 'list', 'set', 'dict', 'sorted',
               'enumerate', 'range', 'isinstance', 'repr', 'type', 'abs', 'id', 'print', 'getattr'}
 
